@@ -180,6 +180,13 @@ def nasDecodeNilable (P : Prims) (ue : UeSec) (sht : UInt8) : Option Bytes → U
   | none => (ue, .error .error)
   | some payload => nasDecode P ue sht payload
 
+/-- `m, err := NASDecode(…); if err != nil { return nil }; return m` — a panic stays a panic -/
+def nilOnError : UeSec × Res Bytes → UeSec × Res (Option Bytes)
+  | (ue', .ok b) => (ue', .ok (some b))
+  | (ue', .error .panic) => (ue', .error .panic)
+  | (ue', .error .hang) => (ue', .error .hang)
+  | (ue', .error .error) => (ue', .ok none)
+
 /-- `GetNasPdu(ue, msg)` over a given `NASDecode`: `ies` lists `msg.ProtocolIEs.List` as `some v` for an IE whose
     id is `ProtocolIEIDNASPDU` (value `v`) and `none` for any other IE. The first NAS-PDU IE decides:
     header type = `pkg[1]` (`nas.GetSecurityHeaderType`), an error from `NASDecode` becomes `nil`.
@@ -190,12 +197,7 @@ def getNasPduWith (dec : UeSec → UInt8 → Bytes → UeSec × Res Bytes) (ue :
   | none :: rest => getNasPduWith dec ue rest
   | some pkg :: _ =>
     match pkg with
-    | _ :: sht :: _ =>
-      match dec ue sht pkg with
-      | (ue', .ok b) => (ue', .ok (some b))
-      | (ue', .error .panic) => (ue', .error .panic)
-      | (ue', .error .hang) => (ue', .error .hang)
-      | (ue', .error .error) => (ue', .ok none)
+    | _ :: sht :: _ => nilOnError (dec ue sht pkg)
     | _ => (ue, .error .panic)
 
 def getNasPdu (P : Prims) (ue : UeSec) (ies : List (Option Bytes)) : UeSec × Res (Option Bytes) :=
